@@ -82,6 +82,8 @@ void mc_set_opt(int opt, long val);
 long mc_get_opt(int opt);
 void mc_log(const char* fmt, ...) __attribute__((format(printf, 1, 2)));
 int mc_live_threads(void); // modelled threads not finished (including caller)
+void mc_watch(const volatile void* addr, int tid, int nth, void (*fn)(void*), void* arg); // run fn on thread tid right before its nth access to addr
+int mc_futex_waiters(void); // modelled threads other than the caller blocked in a futex wait right now
 
 // lifetime registry (kept in the uninstrumented engine so that it adds no happens-before edges)
 void mc_track_ctor(const void* p, long tag);
